@@ -32,11 +32,13 @@ from antismash.config import build_config, get_config, update_config  # noqa: E4
 from antismash.detection import cluster_hmmer, full_hmmer, hmm_detection, nrps_pks_domains, sideloader  # noqa: E402
 from antismash.detection.nrps_pks_domains import domain_identification  # noqa: E402
 from antismash.detection.sideloader.data_structures import SideloadSimple  # noqa: E402
-from antismash.modules import pfam2go, tta  # noqa: E402
+from antismash.common.secmet.features import Protocluster  # noqa: E402
+from antismash.modules import pfam2go, t2pks, tta  # noqa: E402
+from antismash.modules.t2pks import t2pks_analysis  # noqa: E402
 
 from . import build, rules as R  # noqa: E402
 
-KINDS = ["rules", "sideload", "nrps", "hmmer", "tta", "pfam2go"]
+KINDS = ["rules", "sideload", "nrps", "hmmer", "tta", "pfam2go", "t2pks"]
 STRICTNESS = ["strict", "relaxed", "loose"]
 MULTIPLIERS = [(1.0, 1.5), (2.0, 1.5), (1.0, 0.5)]       # fungal cutoff / neighbourhood multipliers per ctx.mult
 PROFILES = ["a", "b", "c", "d", "e"]
@@ -447,7 +449,58 @@ class Pfam2go:
         results.add_to_record(record)
 
 
-DRIVERS = {"rules": Rules, "sideload": Sideload, "nrps": Nrps, "hmmer": Hmmer, "tta": Tta, "pfam2go": Pfam2go}
+class T2pks:
+    """ type II PKS analysis: the hmmscan / blastp finders are replaced by hit tables, everything downstream is real """
+    module = t2pks
+
+    @staticmethod
+    def options(case, env, c, workdir):
+        return SimpleNamespace()
+
+    @staticmethod
+    def record(case, env, c):
+        record = plain_record(case["L"], False, c["rec"])
+        for idx, (start, end, strand) in enumerate(case["genes"]):
+            record.add_cds_feature(DummyCDS(start=start, end=end, strand=strand, locus_tag=f"g{idx + 1}"))
+        for start, end, product in case["clusters"]:
+            record.add_protocluster(Protocluster(FeatureLocation(start + 3, end - 3, 1), FeatureLocation(start, end, 1), tool="verif",
+                                                 product=product, cutoff=10, neighbourhood_range=3, detection_rule="a"))
+        record.create_candidate_clusters()
+        record.create_regions()
+        return record
+
+    @staticmethod
+    def patches(case, env, c, workdir):
+        def hmmscan(cds_features):
+            out = {}
+            for cds in cds_features:
+                idx = int(cds.get_name()[1:]) - 1
+                hits = [HMMResult(label, 2 + 9 * k, 10 + 9 * k, 10 ** -(12 + k), 40.5 + 3 * k) for k, label in enumerate(case["t2hits"][idx])]
+                if hits:
+                    out[cds.get_name()] = hits
+            return out
+
+        def blastp(cds_hmm_hits):
+            out = {}
+            for cds in cds_hmm_hits:
+                idx = int(cds.get_name()[1:]) - 1
+                hits = [HMMResult(label, 1, 9, 1e-30, 200.25 + k) for k, label in enumerate(case["blast"][idx])]
+                if hits:
+                    out[cds.get_name()] = hits
+            return out
+        return [mock.patch.object(t2pks_analysis, "run_t2pks_hmmscan", side_effect=hmmscan),
+                mock.patch.object(t2pks_analysis, "run_starter_unit_blastp", side_effect=blastp)]
+
+    @staticmethod
+    def run(case, env, c, record, options, workdir):
+        return t2pks.run_on_record(record, None, options)
+
+    @staticmethod
+    def effects(results, record):
+        results.add_to_record(record)
+
+
+DRIVERS = {"t2pks": T2pks, "rules": Rules, "sideload": Sideload, "nrps": Nrps, "hmmer": Hmmer, "tta": Tta, "pfam2go": Pfam2go}
 
 
 class _Patched:
@@ -470,10 +523,11 @@ def hit_key(hit: dict) -> dict:
 
 
 def observe_results(driver, results, record) -> tuple:
-    """ (json text, effects projection) of results held right after a Run / Regenerate on `record` """
-    text = dumps(results)
+    """ (json text, effects projection) of results held after a Run / Regenerate on `record`; as in the pipeline the results
+        are first put into the record and serialised afterwards (protoclusters are written with the number the record gave them) """
     driver.effects(results, record)
-    return text, project_record(record)
+    feats = project_record(record)
+    return dumps(results), feats
 
 
 def replay(kind: str, case: dict, env: dict, hist: list, workdir: str, keep_texts: bool = False) -> list:
@@ -504,14 +558,19 @@ def replay(kind: str, case: dict, env: dict, hist: list, workdir: str, keep_text
                 record = driver.record(case, env, c)
                 with _Patched(driver.patches(case, env, c, workdir)):
                     held = driver.run(case, env, c, record, options, workdir)
-                text, feats = observe_results(driver, held, record)
-                step.update(js=digest(text), ef=digest(repr(feats)), summary=summary(feats), size=len(text))
-                if keep_texts:
-                    step["text"] = text
-                held_schema = c["schema"]
             except Exception as err:  # pylint: disable=broad-except
-                step["exc"] = exc_text(err)
+                step["exc"] = "run:" + exc_text(err)      # the module's own run path failed: not a statement about reuse
                 held = None
+            else:
+                try:
+                    text, feats = observe_results(driver, held, record)
+                    step.update(js=digest(text), ef=digest(repr(feats)), summary=summary(feats), size=len(text))
+                    if keep_texts:
+                        step["text"] = text
+                    held_schema = c["schema"]
+                except Exception as err:  # pylint: disable=broad-except
+                    step["exc"] = exc_text(err)
+                    held = None
             saved_text = None
         elif action == "Save":
             if held is None:
@@ -727,3 +786,27 @@ def tta_case(rng: random.Random, tag: str, gc_percent: int) -> dict:
     text = "".join(seq)
     assert sum(text.count(x) for x in "GC") == wanted
     return {"tag": tag, "L": length, "genes": genes, "seq": text, "gcn": wanted, "len": length}
+
+
+T2_HITS = ["KS", "CLF_7", "CLF_8|9", "CLF_11|12", "CYC_C7-C12", "CYC_C5-C14", "CYC_C5-C14/C3-C16", "CYC_C9-C14", "CYC_C2-C19", "KR_C9",
+           "OXY", "MET_C6", "HAL", "ACP", "KSIII", "AT", "GT"]
+T2_BLAST = ["KSIII_AAF70109.1_Aclacinomycin_propionyl-CoA", "AT_ADG86309.1_A-74528_hexadienyl-CoA", "KSIII_ACI88883.1_Alnumycin_butyryl-CoA"]
+
+
+def t2pks_case(rng: random.Random, tag: str) -> dict:
+    genes, t2hits, blast = [], [], []
+    pos = 12
+    for _ in range(rng.randrange(3, 8)):
+        genes.append([pos, pos + 90, rng.choice([1, -1])])
+        pos += 90 + rng.choice([6, 15])
+        labels = rng.sample(T2_HITS, rng.choice([0, 1, 1, 2]))
+        if rng.random() < 0.35:
+            labels.append(rng.choice(["CLF_8|9", "CYC_C7-C12", "CYC_C5-C14/C3-C16"]))
+        t2hits.append(labels)
+        blast.append([rng.choice(T2_BLAST)] if any(x in ("KSIII", "AT") for x in labels) and rng.random() < 0.8 else [])
+    length = pos + 12
+    clusters = [[0, length, "T2PKS"]]
+    if len(genes) >= 5 and rng.random() < 0.4:
+        cut = genes[len(genes) // 2][0] - 3
+        clusters = [[0, cut, "T2PKS"], [cut, length, rng.choice(["T2PKS", "T1PKS"])]]
+    return {"tag": tag, "L": length, "genes": genes, "t2hits": t2hits, "blast": blast, "clusters": clusters}
